@@ -87,7 +87,8 @@ class LoopSpec:
     frame_check(ex, fr, snapshot) optional: extra obligations that nothing else changed
     """
 
-    def __init__(self, header, invariant, havoc=None, name=None, snapshot=None, frame_check=None, seq=None, modifies=None):
+    def __init__(self, header, invariant, havoc=None, name=None, snapshot=None, frame_check=None, seq=None, modifies=None, after_body=None):
+        self.after_body = after_body
         self.header, self.invariant, self.havoc, self.name = header, invariant, havoc, name
         self.snapshot, self.frame_check, self.seq, self.modifies = snapshot, frame_check, seq, modifies
 
@@ -1606,6 +1607,8 @@ class Ex:
         if isinstance(s, ast.For):
             seq = spec.seq(self, fr, it) if spec.seq else it
             if not isinstance(seq, VSeq):
+                seq = self.lib.as_seq(self, seq, fr)
+            if not isinstance(seq, VSeq):
                 raise Unsupported("loop spec on a non-symbolic sequence")
         snap = spec.snapshot(self, fr) if spec.snapshot else None
         # 1. invariant holds on entry
@@ -1642,6 +1645,8 @@ class Ex:
                 pass
             except _Break:
                 raise Unsupported("break inside a loop with invariant")
+            if getattr(spec, "after_body", None):
+                spec.after_body(self, fr, k)
             after = self.heap_fingerprint()
             for addr, fp in before.items():
                 if addr not in declared and after.get(addr) != fp:
